@@ -45,7 +45,7 @@ int main(void) {
 		struct expr *bf = mkexpr(EXPRBITFIELD, ctype[l], le);
 		bf->u.bitfield.bits.before = before; bf->u.bitfield.bits.after = bits - width - before;
 		le = bf;
-		bool sgn = ctype[l]->u.basic.issigned;
+		bool sgn = UBASIC(ctype[l]).issigned;
 		if (width < 32 || (width == 32 && sgn)) lidx = 6; else if (width == 32) lidx = 7; else lidx = l;
 #endif
 		int want = WANT[lidx][r];
